@@ -5,6 +5,7 @@ Driver for the pattern part of M8 (`Abra.PatCompile`).
 
   `pc match <env> <ty> <narms> <pat>… <val>`   run the match code on the value
   `pc let <env> <ty> <pat> <val>`              run the `let`/`for` destructuring code
+  `pc first <env> <ty> <narms> <pat>… <val>`   first arm whose pattern matches (`pmatch`, M9), `arm=<k>`
   val ::= vt | vf | vi<int> | vd<bits> | vs<hex> | vP <n> <val>… | vV <idx> <val>     (void = `vP 0`)
 
 Answers: `arm=<k> leak=<n> <slot>=<val> …` (slots ascending, the latest store wins; `leak` =
@@ -109,6 +110,28 @@ def handlePatCompile : List String → String
               let leak : Int := (stack.length : Int) - 1
               "leak=" ++ toString leak ++ (if locals.isEmpty then "" else " " ++ showLocals locals)
           | _ => "bad-op"
+  | "first" :: ws =>
+    -- the arm the matrix model's semantics (`pmatch`, first match in source order) selects
+    match pEnv ws with
+    | none => "bad-op"
+    | some (defs, ws) =>
+      match pTy ws with
+      | none => "bad-op"
+      | some (ty, ws) =>
+        match pNat ws with
+        | none => "bad-op"
+        | some (n, ws) =>
+          match pMany pPat n ws with
+          | none => "bad-op"
+          | some (arms, ws) =>
+            match pVal ws with
+            | some (v, []) =>
+              let env := mkEnv defs
+              if !(arms.all (fun p => patTyped env p ty)) || !hasTy env v ty then "ill-typed" else
+              match arms.findIdx? (fun p => pmatch p v) with
+              | some k => "arm=" ++ toString k
+              | none => "arm=none"
+            | _ => "bad-op"
   | _ => "bad-op"
 
 end Abra.Drv
